@@ -126,7 +126,7 @@ Proof.
 Qed.
 
 Example repaired_summary_witness :
-  let k := index_of (is_w Summary) (plan_ops repaired cDk 0 [] empty_fs) in
+  let k := index_of (is_w SummaryTmp) (plan_ops repaired cDk 0 [] empty_fs) in
   let s1 := run_crash repaired cDk 0 [] k VHalf empty_fs in
   plan_out repaired cDk 1 [] s1 = inr (mkres 1 (Some 1) false).
 Proof. vm_compute. reflexivity. Qed.
